@@ -15,11 +15,13 @@ package cert
 
 // ---- tables (C01, C02, C05)
 //@ func tables
-//@   props C01 C02 C05
-//@   uses x509.smt2 keys.smt2
+//@   props C01 C02 C05 C06 C07
+//@   uses x509.smt2 keys.smt2 ext.smt2
 //@   ensures @C01,C02 forall a in [0, 8) :: has(sigAlgOids, a) && sigAlgOids[a] != nil && oidv(sigAlgOids[a]) == specSigOid(a)
 //@   ensures @C05 forall a in [0, 14) :: has(keyTypes, a) && keyTypes[a] == (if a <= 3 then 0 else 1)
 //@   ensures @C02 snMax != nil && BigVal(snMax) == pow2(159)
+//@   ensures @C06,C07 len(oids) == 13 && (forall i in [0, 13) :: oids[i] != nil && oidv(oids[i]) == specExtOid(i))
+//@   ensures @C06,C07 oidExtensionSubjectKeyId != nil && oidv(oidExtensionSubjectKeyId) == specExtOid(0) && oidExtensionKeyUsage != nil && oidv(oidExtensionKeyUsage) == specExtOid(1) && oidExtensionExtendedKeyUsage != nil && oidv(oidExtensionExtendedKeyUsage) == specExtOid(2) && oidExtensionAuthorityKeyId != nil && oidv(oidExtensionAuthorityKeyId) == specExtOid(3) && oidExtensionBasicConstraints != nil && oidv(oidExtensionBasicConstraints) == specExtOid(4) && oidExtensionSubjectAltName != nil && oidv(oidExtensionSubjectAltName) == specExtOid(5) && oidExtensionCertificatePolicies != nil && oidv(oidExtensionCertificatePolicies) == specExtOid(6) && oidExtensionAuthorityInfoAccess != nil && oidv(oidExtensionAuthorityInfoAccess) == specExtOid(9) && oidExtensionAdmission != nil && oidv(oidExtensionAdmission) == specExtOid(11) && oidExtensionOcspNoCheck != nil && oidv(oidExtensionOcspNoCheck) == specExtOid(12)
 
 // resolveAlg: hash, hash object, signature OID and key type of each of the eight algorithms (RFC 3279/4055/5758)
 //@ func resolveAlg returns (hid, h, oid, kt, err)
@@ -126,3 +128,92 @@ package cert
 //@   uses fs.smt2
 //@   unverified PKCS#8 assembly (C17) not yet under contract
 //@   abstracts err == nil ==> bytes(res) == pkcs8(key)
+
+// ---- extensions (C06: identifier and critical flag; C07: value)
+
+// ---- extensions (C06: identifier and critical flag; C07: value)
+//@ filelet EXTOIDS = oidExtensionSubjectKeyId != nil && oidv(oidExtensionSubjectKeyId) == specExtOid(0) && oidExtensionKeyUsage != nil && oidv(oidExtensionKeyUsage) == specExtOid(1) && oidExtensionExtendedKeyUsage != nil && oidv(oidExtensionExtendedKeyUsage) == specExtOid(2) && oidExtensionAuthorityKeyId != nil && oidv(oidExtensionAuthorityKeyId) == specExtOid(3) && oidExtensionBasicConstraints != nil && oidv(oidExtensionBasicConstraints) == specExtOid(4) && oidExtensionSubjectAltName != nil && oidv(oidExtensionSubjectAltName) == specExtOid(5) && oidExtensionCertificatePolicies != nil && oidv(oidExtensionCertificatePolicies) == specExtOid(6) && oidExtensionAuthorityInfoAccess != nil && oidv(oidExtensionAuthorityInfoAccess) == specExtOid(9) && oidExtensionAdmission != nil && oidv(oidExtensionAdmission) == specExtOid(11) && oidExtensionOcspNoCheck != nil && oidv(oidExtensionOcspNoCheck) == specExtOid(12)
+
+//@ func GetOid returns (oid, ok)
+//@   props C06
+//@   uses ext.smt2
+//@   given len(oids) == 13 && (forall i in [0, 13) :: oids[i] != nil && oidv(oids[i]) == specExtOid(i))
+//@   ensures @C06 ok == (0 <= i && i < 13)
+//@   ensures @C06 ok ==> oid != nil && oidv(oid) == specExtOid(i)
+//@ func ExpectOid returns (oid)
+//@   props C06
+//@   uses ext.smt2
+//@   requires 0 <= i && i < 13
+//@   ensures @C06 oid != nil && oidv(oid) == specExtOid(i)
+
+//@ func NewKeyUsage returns (res)
+//@   props C06 C07
+//@   uses ext.smt2
+//@   given EXTOIDS
+//@   ensures @C06 oidv(res.Id) == specExtOid(1)
+//@   ensures @C06 res.Critical == critical
+//@   ensures @C07 bytes(res.Value) == bitstringDer(namedBytes(flags & 254), namedBitLen(flags & 254))
+
+//@ func (GeneralNameRFC822).marshal returns (b, err)
+//@   props C07 C16
+//@   uses ext.smt2
+//@   ensures @C07,C16 err == nil && bytes(b) == tlv(2, 1, false, strBytes(g))
+//@ func (GeneralNameDNS).marshal returns (b, err)
+//@   props C07 C16
+//@   uses ext.smt2
+//@   ensures @C07,C16 err == nil && bytes(b) == tlv(2, 2, false, strBytes(g))
+//@ func (GeneralNameURI).marshal returns (b, err)
+//@   props C07 C16
+//@   uses ext.smt2
+//@   ensures @C07,C16 err == nil && bytes(b) == tlv(2, 6, false, strBytes(g))
+//@ func (GeneralNameIP).marshal returns (b, err)
+//@   props C07 C16
+//@   uses ext.smt2
+//@   ensures @C07,C16 err == nil && bytes(b) == tlv(2, 7, false, bcat(bcat(bcat(bunit(g[0]), bunit(g[1])), bunit(g[2])), bunit(g[3])))
+
+//@ func NewSubjectAlternativeName returns (res, err)
+//@   props C06 C07
+//@   uses ext.smt2
+//@   given EXTOIDS
+//@   ensures @C06 err == nil ==> res != nil && res.Critical == critical && oidv(res.Id) == specExtOid(5)
+//@   ensures @C07 err == nil ==> bytes(res.Value) == tlv(0, 16, true, catNames(old(seq(names)), 0, #bempty))
+//@   ensures err != nil ==> res == nil
+//@   loop 1
+//@     invariant 0 <= idx && idx <= len(names)
+//@     invariant @C07 catNames(old(seq(names)), idx, BufContent(nameBuffer)) == catNames(old(seq(names)), 0, #bempty)
+
+//@ func NewBasicConstraints returns (res)
+//@   props C06 C07
+//@   uses ext.smt2
+//@   given EXTOIDS
+//@   ensures @C06 res.Critical == critical && oidv(res.Id) == specExtOid(4)
+
+//@ func NewCertificatePolicies returns (res, err)
+//@   props C06 C07
+//@   uses ext.smt2
+//@   given EXTOIDS
+//@   ensures @C06 err == nil ==> res != nil && res.Critical == critical && oidv(res.Id) == specExtOid(6)
+//@   ensures @C07 err == nil ==> bytes(res.Value) == der(deep(policyIds))
+//@   ensures err != nil ==> res == nil
+
+//@ func NewExtendedKeyUsage returns (res, err)
+//@   props C06 C07
+//@   uses ext.smt2
+//@   given EXTOIDS
+//@   ensures @C06 err == nil ==> res != nil && res.Critical == critical && oidv(res.Id) == specExtOid(2)
+//@   ensures @C07 err == nil ==> bytes(res.Value) == der(deep(usages))
+//@   ensures err != nil ==> res == nil
+
+//@ func NewAuthorityKeyIdentifierFromStruct returns (res, err)
+//@   props C06 C07
+//@   uses ext.smt2
+//@   given EXTOIDS
+//@   ensures @C06 err == nil ==> res != nil && res.Critical == critical && oidv(res.Id) == specExtOid(3)
+//@   ensures @C07 err == nil ==> bytes(res.Value) == der(deep(rawAuthkeyId))
+//@   ensures err != nil ==> res == nil
+
+//@ func NewOcspNoCheck returns (res)
+//@   props C06 C07
+//@   uses ext.smt2
+//@   given ocspNoCheck.Critical == false && ocspNoCheckCritical.Critical == true && oidv(ocspNoCheck.Id) == specExtOid(12) && oidv(ocspNoCheckCritical.Id) == specExtOid(12)
+//@   ensures @C06 res.Critical == critical && oidv(res.Id) == specExtOid(12)
